@@ -103,6 +103,15 @@ CHECKS["C05"] = dict(
     note="Trusts the mutation guard (type-strict inequality of the configuration modulo +/* commutation).",
     design="DESIGN.md section 4 C05")
 
+CHECKS["C08"] = dict(
+    technique="Hypothesis-generated run_space specifications with source files written per case; differential oracle against an independent reference expander (ordered list equality, rejection-class sets); tracemalloc-based deterministic promptness oracle on 1e4..1e5-run products",
+    text=("Generated-input search (9.6k specs quick, 128k thorough) over blocks x modes x key collisions x empty lists x csv/json/yaml/"
+          "ndjson sources with select/rename x caps, through expand_run_space and through the YAML parser. The expansion must equal the "
+          "reference list exactly (order, values with type strictness, union of keys) or be rejected with an applicable class and the "
+          "right actual/max numbers; an over-cap product must be rejected with memory peak < 5% of its materialisation cost."),
+    note="Trusts the ~120-line reference expander, csv/json/yaml writers, tracemalloc.",
+    design="DESIGN.md section 4 C08")
+
 NOT_YET = {}
 
 
